@@ -54,7 +54,7 @@ def main(argv):
         for ver, v3 in cfgs:
             for mode in (("sync", "async") if (thorough or i % 2 == 0) else ("sync",)):
                 sc = {"version": ver, "mode": mode, "timeout": 0.5, "steps": [],
-                      "session_kw": rng.choice([{}, {}, {"max_repetitions": rng.choice([1, 5, 127, 128, 150, 255, 256])}])}
+                      "session_kw": rng.choice([{}, {}, {"max_repetitions": rng.choice([1, 5, 127, 128, 150, 255, 256, 65536, 2 ** 31 - 1])}])}
                 if v3:
                     sc["v3"] = dict(v3, engine_id="80001f8880a1b2c3d4", agent_engine_id="80001f8880a1b2c3d4", boots=2, time=500)
                 ex = []
@@ -63,7 +63,7 @@ def main(argv):
                     kinds = ["getnext", "fetch"] if ver == "v1" else ["getnext", "getbulk", "getbulk", "fetch"]
                     for kind in kinds:
                         if kind == "getbulk":
-                            mr = rng.choice([1, 2, 3, 7, 20, 50, 127, 128, 200, 255, 256, 1000, 65535])
+                            mr = rng.choice([1, 2, 3, 7, 20, 50, 127, 128, 200, 255, 256, 1000, 32767, 32768, 65535, 65536, 65537, 131072, 2 ** 24, 2 ** 31 - 1])
                             args = [ber.oid_text(base), mr]
                         else:
                             args = [ber.oid_text(base)]
